@@ -183,3 +183,41 @@ pub fn stderr_unwritable() -> bool {
         ok
     }
 }
+
+thread_local! {
+    static FAIL_MMAP: Cell<i32> = const { Cell::new(0) };
+}
+pub static MMAP_FAILURES_INJECTED: AtomicU64 = AtomicU64::new(0);
+
+/// Make every file-backed mmap() of the calling thread fail with `errno` (0 = stop failing): what a
+/// process at its address-space or mapping-count limit, or a file system without shared mappings
+/// (ENODEV), gives a client at the moment it opens the segment.
+pub fn fail_mmap(errno: i32) {
+    FAIL_MMAP.with(|c| c.set(errno));
+}
+
+unsafe fn mmap_impl(addr: *mut libc::c_void, len: libc::size_t, prot: libc::c_int, flags: libc::c_int, fd: libc::c_int, off: libc::off_t) -> *mut libc::c_void {
+    let e = FAIL_MMAP.with(|c| c.get());
+    if e != 0 && fd >= 0 && flags & libc::MAP_ANONYMOUS == 0 {
+        MMAP_FAILURES_INJECTED.fetch_add(1, Ordering::Relaxed);
+        set_errno(e);
+        return libc::MAP_FAILED;
+    }
+    libc::syscall(libc::SYS_mmap, addr, len, prot as libc::c_long, flags as libc::c_long, fd as libc::c_long, off) as *mut libc::c_void
+}
+
+/// # Safety
+/// Same contract as mmap(2).
+#[cfg(not(miri))]
+#[no_mangle]
+pub unsafe extern "C" fn mmap(addr: *mut libc::c_void, len: libc::size_t, prot: libc::c_int, flags: libc::c_int, fd: libc::c_int, off: libc::off_t) -> *mut libc::c_void {
+    mmap_impl(addr, len, prot, flags, fd, off)
+}
+
+/// # Safety
+/// Same contract as mmap(2).
+#[cfg(not(miri))]
+#[no_mangle]
+pub unsafe extern "C" fn mmap64(addr: *mut libc::c_void, len: libc::size_t, prot: libc::c_int, flags: libc::c_int, fd: libc::c_int, off: libc::off_t) -> *mut libc::c_void {
+    mmap_impl(addr, len, prot, flags, fd, off)
+}
